@@ -1,6 +1,7 @@
 (* C20 - the four numpy-shaped windows: length, non-negativity, textbook closed
    forms, exact sums.  No Interval here (small cases are done by hand). *)
 From Coq Require Import Reals ZArith List Bool Lia Lra.
+Set Warnings "-ambiguous-paths".
 From Verif Require Import lib.C20_Numpy gen.WinHelp C20.Model.
 Import ListNotations.
 Open Scope R_scope.
